@@ -114,10 +114,15 @@ func IsIntegerLiteral(lit string) bool {
 
 // FloatChecker caches the power products it needs; it is not safe for concurrent use.
 type FloatChecker struct {
-	scale map[[2]int64]*[2]*big.Int
-	pow10 map[int64]*big.Int
-	a, b  big.Int
-	w     big.Int
+	scale      map[[2]int64]*[2]*big.Int
+	pow10      map[int64]*big.Int
+	a, b       big.Int
+	w          big.Int
+	lo, hi, xu big.Int
+	dig        []byte // significant digits of the text under test
+	lay        []byte // expected layout
+	// K is the number of significant digits of the last text checked.
+	K int
 	// Ties counts cases where two equally long candidates were equally close.
 	Ties int64
 }
@@ -186,13 +191,113 @@ func Decompose(f float64, bits int) (m uint64, e int64, lowerCloser bool, ok boo
 	return fr | 1<<52, ex - 1075, fr == 0 && ex > 1, true
 }
 
-// cmpScaled compares x·T with y·U.
-func (c *FloatChecker) cmpScaled(x uint64, T *big.Int, y uint64, U *big.Int) int {
-	c.w.SetUint64(x)
-	c.a.Mul(T, &c.w)
-	c.w.SetUint64(y)
-	c.b.Mul(U, &c.w)
-	return c.a.Cmp(&c.b)
+// appendLayout appends ECMA-262 Number::toString's layout (steps 6–10 of 6.1.6.1.20) of the
+// digits d (no leading/trailing zeros) with the decimal point position n (value = 0.d × 10^n).
+func appendLayout(dst, d []byte, n int64) []byte {
+	k := int64(len(d))
+	zeros := func(dst []byte, z int64) []byte {
+		for ; z > 0; z-- {
+			dst = append(dst, '0')
+		}
+		return dst
+	}
+	switch {
+	case k <= n && n <= 21:
+		return zeros(append(dst, d...), n-k)
+	case 0 < n && n <= 21:
+		dst = append(dst, d[:n]...)
+		dst = append(dst, '.')
+		return append(dst, d[n:]...)
+	case -6 < n && n <= 0:
+		dst = append(dst, '0', '.')
+		return append(zeros(dst, -n), d...)
+	}
+	e := n - 1
+	dst = append(dst, d[0])
+	if k > 1 {
+		dst = append(dst, '.')
+		dst = append(dst, d[1:]...)
+	}
+	dst = append(dst, 'e')
+	if e < 0 {
+		dst = append(dst, '-')
+		e = -e
+	} else {
+		dst = append(dst, '+')
+	}
+	return strconv.AppendInt(dst, e, 10)
+}
+
+// scan parses s with the RFC 8259 number grammar into c.dig (significant digits, no
+// leading/trailing zeros) and the decimal exponent of the last kept digit.
+func (c *FloatChecker) scan(s []byte) (neg bool, exp10 int64, ok bool) {
+	c.dig = c.dig[:0]
+	i := 0
+	if i < len(s) && s[i] == '-' {
+		neg = true
+		i++
+	}
+	st := i
+	if i < len(s) && s[i] == '0' {
+		i++
+	} else {
+		for i < len(s) && '0' <= s[i] && s[i] <= '9' {
+			i++
+		}
+	}
+	if i == st {
+		return neg, 0, false
+	}
+	c.dig = append(c.dig, s[st:i]...)
+	var e int64
+	if i < len(s) && s[i] == '.' {
+		i++
+		st = i
+		for i < len(s) && '0' <= s[i] && s[i] <= '9' {
+			i++
+		}
+		if i == st {
+			return neg, 0, false
+		}
+		c.dig = append(c.dig, s[st:i]...)
+		e = -int64(i - st)
+	}
+	if i < len(s) && (s[i] == 'e' || s[i] == 'E') {
+		i++
+		eneg := false
+		if i < len(s) && (s[i] == '+' || s[i] == '-') {
+			eneg = s[i] == '-'
+			i++
+		}
+		st = i
+		var x int64
+		for i < len(s) && '0' <= s[i] && s[i] <= '9' {
+			if x < 1e15 {
+				x = x*10 + int64(s[i]-'0')
+			}
+			i++
+		}
+		if i == st {
+			return neg, 0, false
+		}
+		if eneg {
+			x = -x
+		}
+		e += x
+	}
+	if i != len(s) {
+		return neg, 0, false
+	}
+	j := 0
+	for j < len(c.dig) && c.dig[j] == '0' {
+		j++
+	}
+	c.dig = c.dig[j:]
+	for len(c.dig) > 0 && c.dig[len(c.dig)-1] == '0' {
+		c.dig = c.dig[:len(c.dig)-1]
+		e++
+	}
+	return neg, e, true
 }
 
 // Check decides whether s is what the property demands for the finite float f of the
@@ -205,84 +310,93 @@ func (c *FloatChecker) cmpScaled(x uint64, T *big.Int, y uint64, U *big.Int) int
 //	not-shortest  a decimal with fewer significant digits also rounds to f
 //	not-closest   another decimal with as many digits rounds to f and is strictly closer to f
 func (c *FloatChecker) Check(f float64, bits int, s string) string {
-	p, ok := SplitNumber(s)
+	return c.CheckBytes(f, bits, []byte(s))
+}
+
+// CheckBytes is Check on a byte slice (not retained, not modified).
+func (c *FloatChecker) CheckBytes(f float64, bits int, s []byte) string {
+	neg, g, ok := c.scan(s)
 	if !ok {
 		return "grammar"
 	}
-	if p.Neg != math.Signbit(f) {
+	if neg != math.Signbit(f) {
 		return "sign"
 	}
 	m, e, lowerCloser, ok := Decompose(f, bits)
 	if !ok {
 		return "domain"
 	}
+	k := int64(len(c.dig))
+	c.K = int(k)
 	if m == 0 {
-		if p.Digits != "" {
+		if k != 0 {
 			return "roundtrip"
 		}
-		if s != "0" && s != "-0" {
+		if string(s) != "0" && string(s) != "-0" {
 			return "layout"
 		}
 		return ""
 	}
-	if p.Digits == "" {
+	if k == 0 {
 		return "roundtrip"
 	}
-	k := int64(len(p.Digits))
-	want := LayoutES6(p.Digits, int(p.Exp10+k))
-	if p.Neg {
-		want = "-" + want
+	c.lay = c.lay[:0]
+	if neg {
+		c.lay = append(c.lay, '-')
 	}
-	if s != want {
+	c.lay = appendLayout(c.lay, c.dig, g+k)
+	if string(c.lay) != string(s) {
 		return "layout"
 	}
 	if k > 19 {
 		return "not-shortest" // 17 digits always suffice
 	}
-	if p.Exp10 > 400 || p.Exp10 < -400 {
+	if g > 400 || g < -400 {
 		return "roundtrip"
 	}
-	D, err := strconv.ParseUint(p.Digits, 10, 64) // plain digit string → integer, no rounding involved
-	if err != nil {
-		return "grammar"
+	var D uint64
+	for _, ch := range c.dig {
+		D = D*10 + uint64(ch-'0')
 	}
-	g := p.Exp10
-	e2 := e - 2
-	T, U := c.scales(e2, g)
+	T, U := c.scales(e-2, g)
 	mf := 4 * m
-	mhi := mf + 2
 	mlo := mf - 2
 	if lowerCloser {
 		mlo = mf - 1
 	}
 	incl := m%2 == 0
+	// rounding interval of f in scaled units: [mlo·T, (mf+2)·T], closed iff the mantissa is even
+	c.w.SetUint64(mlo)
+	c.lo.Mul(T, &c.w)
+	c.w.SetUint64(mf + 2)
+	c.hi.Mul(T, &c.w)
 	inside := func(x uint64) bool {
-		// mlo·2^e2 ≤ x·10^g ≤ mhi·2^e2  (strict when the mantissa is odd)
-		lo := c.cmpScaled(mlo, T, x, U) // sign of lo - x
-		if lo > 0 || (lo == 0 && !incl) {
+		c.w.SetUint64(x)
+		c.xu.Mul(U, &c.w)
+		if r := c.xu.Cmp(&c.lo); r < 0 || (r == 0 && !incl) {
 			return false
 		}
-		hi := c.cmpScaled(mhi, T, x, U) // sign of hi - x
-		if hi < 0 || (hi == 0 && !incl) {
+		if r := c.xu.Cmp(&c.hi); r > 0 || (r == 0 && !incl) {
 			return false
 		}
 		return true
 	}
-	if !inside(D) {
-		return "roundtrip"
-	}
 	if k >= 2 {
 		c1 := D / 10 * 10
 		if inside(c1) || inside(c1+10) {
-			return "not-shortest"
+			if inside(D) {
+				return "not-shortest"
+			}
+			return "roundtrip"
 		}
+	}
+	if !inside(D) { // leaves D·U in c.xu
+		return "roundtrip"
 	}
 	// distance of s from f against half a unit of the last digit of s
 	c.w.SetUint64(mf)
 	c.a.Mul(T, &c.w)
-	c.w.SetUint64(D)
-	c.b.Mul(U, &c.w)
-	c.a.Sub(&c.a, &c.b) // f - s in scaled units
+	c.a.Sub(&c.a, &c.xu) // f - s in scaled units
 	sg := c.a.Sign()
 	if sg != 0 {
 		c.a.Abs(&c.a)
